@@ -108,8 +108,8 @@ Definition known_racy : list (string * N) := [
   ("streams.Stdin.GetDataType", 1%N);          (* reads dataType without the mutex once the context is cancelled *)
   ("config.Config.Set", 2%N);                  (* reads conf.properties[..].Dynamic / GoFunc after Unlock *)
   ("lang.Variables.set", 3%N);                 (* reads v.vars[name] before taking the mutex (MxInterface data types) *)
-  ("parameters.Parameters.Raw", 4%N);          (* reads PreParsed without the mutex *)
-  ("parameters.Parameters.ParseFlags", 5%N);   (* rewrites alias flags in p.params while holding only the read lock *)
+  ("parameters.Params.Raw", 4%N);          (* reads PreParsed without the mutex *)
+  ("parameters.Params.ParseFlags", 5%N);   (* rewrites alias flags in p.params while holding only the read lock *)
   ("parameters.ParseFlags", 5%N);
   ("lang.Variables.Dump", 6%N)                 (* hands out the live map: its readers run without the mutex *)
 ]%string.
